@@ -179,12 +179,13 @@ def run(ctx):
             _cmp(ctx, "TAB-SPLIT", cfg, name, b, paths, rows, {table.strip_gargs(c): [0, 1]})
 
         def empty_suffix(ns):
-            if ns == call("konst_kernel::string::str_from", old_str, ("len", old_str)):
+            if ns in (call("konst_kernel::string::str_from", old_str, ("len", old_str)),
+                      ("field", call(S + "split_at", old_str, ("len", old_str)), 1)):       # split_at(s, len(s)).1 is that same suffix
                 return None
             return "after the last piece the remainder is %s, expected the empty suffix str_from(rem, rem.len())" % show(ns)
 
         def empty_prefix(ns):
-            if ns == call("konst_kernel::string::str_up_to", old_str, Int(0)):
+            if ns in (call("konst_kernel::string::str_up_to", old_str, Int(0)), ("field", call(S + "split_at", old_str, Int(0)), 0)):
                 return None
             return "after the last piece the remainder is %s, expected the empty prefix str_up_to(rem, 0)" % show(ns)
         SO = "konst::string::split_once::"
@@ -214,7 +215,10 @@ def run(ctx):
                 if not (t[0] == "agg" and t[1].endswith("Result::Ok#0") and t[2][0] == "agg"):
                     return "expected Ok((piece, parser))"
                 it, np = table.strip_gargs(t[2][2]), t[2][3]
-                if it != old_str:
+                # (split_at(s, len(s)) is (s, "") - the slicing identities of C03's tables)
+                whole = {old_str, ("field", call(S + "split_at", old_str, ("len", old_str)), 0),
+                         call("konst_kernel::string::str_up_to", old_str, ("len", old_str)), call("konst_kernel::string::str_from", old_str, Int(0))}
+                if it not in whole:
                     return "last piece is %s, expected the whole remainder" % show(it)
                 if sym.mk_field(np, F["yielded_last_split"]) != ("bool", True):
                     return "exhausted flag not set on the last piece"
